@@ -414,7 +414,8 @@ pub fn run(line: &str) -> String {
         sh.kept.clear();
     }
     drop(backend);
-    let leaked = open_idents(&objs.lock().unwrap().map);
+    let all = shared.lock().unwrap().all_objs(&objs.lock().unwrap().map);
+    let leaked = open_idents(&all);
     obs.push(format!("L={}", if leaked.is_empty() { "-".to_string() } else { leaked.iter().map(|x| x.to_string()).collect::<Vec<_>>().join(",") }));
     obs.join(" | ")
 }
